@@ -426,6 +426,12 @@ impl<K: Fam + Ord, V: Fam> Fam for BTreeMap<K, V> {
             }
         }
         out.push(ks.iter().enumerate().map(|(i, k)| (k.clone(), vs[i % vs.len()].clone())).collect());
+        // every value inhabitant in the value position of an entry
+        if let Some(k0) = ks.get(1).or(ks.first()) {
+            for v in vs.iter().take(b.cap) {
+                out.push([(k0.clone(), v.clone())].into_iter().collect());
+            }
+        }
         trunc_to(out, b.cap)
     }
     fn sh(&self) -> Sh {
@@ -433,6 +439,9 @@ impl<K: Fam + Ord, V: Fam> Fam for BTreeMap<K, V> {
     }
     fn same(a: &Self, b: &Self) -> bool {
         a.len() == b.len() && a.iter().zip(b.iter()).all(|((k1, v1), (k2, v2))| k1 == k2 && V::same(v1, v2))
+    }
+    fn has_nonfinite(&self) -> bool {
+        self.values().any(|v| v.has_nonfinite())
     }
 }
 impl Fam for HashMap<String, i64> {
@@ -705,6 +714,116 @@ impl Fam for OuterS {
     }
 }
 
+// ---- position wrappers: every payload type in every position --------------------------------
+// (C04-b: an alist cursor that reads `(key ())` like `(key)` is only visible with a shape-ambiguous
+// payload — Some(None), Some(vec![]), vec![None] — in a struct-field or map-value position)
+
+#[derive(Serialize, Deserialize, PartialEq, Debug, Clone)]
+pub struct FieldOf<T> {
+    pub f: T,
+    pub g: T,
+}
+#[derive(Serialize, Deserialize, PartialEq, Debug, Clone)]
+pub enum VarOf<T> {
+    N(T),
+    S { f: T },
+    P(T, T),
+}
+#[derive(Serialize, Deserialize, PartialEq, Debug, Clone)]
+pub struct NtOf<T>(pub T);
+
+fn pairs_of<T: Fam>(b: &Budget) -> Vec<(T, T)> {
+    let xs = T::inhabitants(b);
+    let k = ((b.cap as f64).sqrt() as usize).max(3).min(6);
+    let mut v = Vec::new();
+    for x in xs.iter().take(k) {
+        for y in xs.iter().take(k) {
+            v.push((x.clone(), y.clone()));
+        }
+    }
+    if let Some(x0) = xs.first() {
+        for x in xs.iter().skip(k).take(b.cap) {
+            v.push((x.clone(), x0.clone()));
+            v.push((x0.clone(), x.clone()));
+        }
+    }
+    v
+}
+
+impl<T: Fam> Fam for FieldOf<T> {
+    fn tname() -> String {
+        format!("FieldOf<{}> {{ f, g }}", T::tname())
+    }
+    fn inhabitants(b: &Budget) -> Vec<Self> {
+        trunc_to(pairs_of::<T>(b).into_iter().map(|(f, g)| FieldOf { f, g }).collect(), b.cap)
+    }
+    fn sh(&self) -> Sh {
+        Sh::Alist(vec![(Sh::sym("f"), self.f.sh()), (Sh::sym("g"), self.g.sh())])
+    }
+    fn same(a: &Self, b: &Self) -> bool {
+        T::same(&a.f, &b.f) && T::same(&a.g, &b.g)
+    }
+    fn has_nonfinite(&self) -> bool {
+        self.f.has_nonfinite() || self.g.has_nonfinite()
+    }
+}
+impl<T: Fam> Fam for VarOf<T> {
+    fn tname() -> String {
+        format!("VarOf<{}> (N(T) | S {{ f: T }} | P(T, T))", T::tname())
+    }
+    fn inhabitants(b: &Budget) -> Vec<Self> {
+        let xs = trunc_to(T::inhabitants(b), b.cap);
+        let mut v: Vec<Self> = Vec::new();
+        for x in &xs {
+            v.push(VarOf::N(x.clone()));
+            v.push(VarOf::S { f: x.clone() });
+        }
+        for (x, y) in pairs_of::<T>(b) {
+            v.push(VarOf::P(x, y));
+        }
+        trunc_to(v, b.cap)
+    }
+    fn sh(&self) -> Sh {
+        let nt = |n: &str, p: Sh| Sh::Cons(Box::new(Sh::sym(n)), Box::new(p));
+        match self {
+            VarOf::N(x) => nt("N", x.sh()),
+            VarOf::S { f } => nt("S", Sh::Alist(vec![(Sh::sym("f"), f.sh())])),
+            VarOf::P(x, y) => nt("P", Sh::Seq(vec![x.sh(), y.sh()])),
+        }
+    }
+    fn same(a: &Self, b: &Self) -> bool {
+        match (a, b) {
+            (VarOf::N(x), VarOf::N(y)) => T::same(x, y),
+            (VarOf::S { f: x }, VarOf::S { f: y }) => T::same(x, y),
+            (VarOf::P(x1, x2), VarOf::P(y1, y2)) => T::same(x1, y1) && T::same(x2, y2),
+            _ => false,
+        }
+    }
+    fn has_nonfinite(&self) -> bool {
+        match self {
+            VarOf::N(x) | VarOf::S { f: x } => x.has_nonfinite(),
+            VarOf::P(x, y) => x.has_nonfinite() || y.has_nonfinite(),
+        }
+    }
+}
+impl<T: Fam> Fam for NtOf<T> {
+    fn tname() -> String {
+        format!("NtOf<{}>(T)", T::tname())
+    }
+    fn inhabitants(b: &Budget) -> Vec<Self> {
+        T::inhabitants(b).into_iter().map(NtOf).collect()
+    }
+    fn sh(&self) -> Sh {
+        self.0.sh()
+    }
+    fn same(a: &Self, b: &Self) -> bool {
+        T::same(&a.0, &b.0)
+    }
+    fn has_nonfinite(&self) -> bool {
+        self.0.has_nonfinite()
+    }
+}
+
 // ---- registry --------------------------------------------------------------------------------
 
 pub enum DeOutcome {
@@ -906,13 +1025,38 @@ fn kind_of(r: Render) -> &'static str {
     }
 }
 
+/// every payload type in every position: sequence element, option payload, tuple element, map
+/// value, struct field, newtype / struct / tuple variant payload, newtype struct payload
+macro_rules! reg_positions {
+    ($($t:ty),* $(,)?) => {{
+        let mut v: Vec<Box<dyn Runner>> = Vec::new();
+        $(
+            v.extend(reg![Vec<$t>, Option<$t>, ($t, $t), BTreeMap<String, $t>, FieldOf<$t>, VarOf<$t>, NtOf<$t>]);
+        )*
+        v
+    }};
+}
+
 macro_rules! reg {
     ($($t:ty),* $(,)?) => {
         vec![$(Box::new(R::<$t>(std::sync::OnceLock::new())) as Box<dyn Runner>),*]
     };
 }
 
+/// Number of types in the core family (the position product follows it).
+pub const N_CORE: usize = 50;
+
 pub fn family() -> Vec<Box<dyn Runner>> {
+    let mut v = family_core();
+    assert_eq!(v.len(), N_CORE);
+    v.extend(reg_positions![
+        (), u64, f64, String, ByteBuf, Option<u8>, Option<Option<u8>>, Option<()>, Option<Vec<u8>>, Vec<u8>, Vec<Option<u8>>, Vec<Vec<()>>,
+        (u8, String), [u8; 0], UnitS, Tup0S, EmptyS, K, E, BTreeMap<String, Option<u8>>, NewtypeS,
+    ]);
+    v
+}
+
+pub fn family_core() -> Vec<Box<dyn Runner>> {
     reg![
         i8, u8, i16, u16, i32, u32, i64, u64, f32, f64, bool, char, String, ByteBuf, (),
         Option<u8>, Option<Option<u8>>, Option<()>, Option<Vec<u8>>, Vec<Option<u8>>, Vec<Vec<()>>, Vec<u8>, Vec<String>, Vec<f64>,
